@@ -147,6 +147,13 @@ def oracle(prop, script, c_lines):
                 return "op %d '%s': cstl_fls returned %s, highest set bit is %d" % (i, op, res, x.bit_length() - 1)
         elif o == "dump":
             pass
+        elif o == "bulk":
+            # the harness itself checks every step of the large history against a
+            # counting ledger (size, get/pop return a held element of maximal priority)
+            if held:
+                return None
+            if not res.startswith("ok ck="):
+                return "op %d '%s': in a history of %s pushes then %s pops on a large heap: %s" % (i, op, w[1], w[1], res)
         else:
             return None
         # state: size and completeness
@@ -238,6 +245,18 @@ def all_histories(length, nprio):
         rec(prefix + ["pop"], nid)
     rec([], 1)
     return out
+
+
+def bulk_scripts(rng, quick):
+    """large heaps: slot numbers with long runs of zero bits below the leading
+    bit (2^17+1, 2^18+1, ...) are reached only beyond 131072 elements"""
+    if quick:
+        return [["bulk 300000 40 %d" % rng.randrange(1 << 30)],
+                ["bulk 270000 3 %d" % rng.randrange(1 << 30), "bulk 1000 1 5"]]
+    return [["bulk 1100000 1000 %d" % rng.randrange(1 << 30)],
+            ["bulk 2200000 7 %d" % rng.randrange(1 << 30)],
+            ["bulk 600000 1 1"],
+            ["bulk 300000 40 %d" % rng.randrange(1 << 30)]]
 
 
 def fls_scripts(rng, nrandom):
